@@ -426,6 +426,17 @@ func nodeType2(interp *Interpreter, sc *scope, n *node, seen []*node) (t *itype,
 		if err != nil {
 			return nil, err
 		}
+		if n.kind == starExpr && n.child[0].isValue(sc) {
+			// Dereference of a pointer value, rather than a pointer type expression.
+			if val.cat == ptrT {
+				t = val.val
+				break
+			}
+			if val.cat == valueT && val.rtype.Kind() == reflect.Ptr {
+				t = valueTOf(val.rtype.Elem(), withScope(sc))
+				break
+			}
+		}
 		t = ptrOf(val, withNode(n), withScope(sc))
 		t.incomplete = val.incomplete
 
